@@ -51,6 +51,9 @@ type config struct {
 	// PolicyDefault: the default action of the recorded policy ("" / "allow", or "log": allowed and logged - to every probe the
 	// same as allow). What the flags do must not depend on what the policy says.
 	PolicyDefault string `json:"policy_default"`
+	// Jail: the process changes its root to this (empty) directory first (no /proc, nothing to read): thread-sync is the kernel's
+	// business and must not depend on what the process can see of itself in a file system (root only)
+	Jail string `json:"jail"`
 }
 
 type probeRec struct {
@@ -113,6 +116,12 @@ func main() {
 	}
 	if cfg.After == 0 {
 		cfg.After = 3
+	}
+	if cfg.Jail != "" {
+		if err := probe.Jail(cfg.Jail); err != nil {
+			fmt.Fprintln(os.Stderr, "jail:", err)
+			os.Exit(3)
+		}
 	}
 	if cfg.Uname26 {
 		if _, _, e := syscall.RawSyscall(syscall.SYS_PERSONALITY, 0x0020000, 0, 0); e != 0 {
